@@ -198,7 +198,9 @@ theorem recvMessages_promoted (H : Hs) (tok : Nat) (tempTok : Option Nat) (t : I
           simp only [serverRole, serverClientHello] at h
           split at h
           · simp at h
-          · split at h <;> simp at h
+          · split at h
+            · simp at h
+            · split at h <;> simp at h
         · simp [serverRole] at h
         · rename_i hty
           have := (C02_promote_only_on_token H tempTok _ t m.payload).1 (by simpa [serverRole] using h)
@@ -245,13 +247,15 @@ theorem C02_promote_only_on_proof (C : Crypto) (H : Hs) (tok : Nat) (tempTok : O
 
 /-- **Honest handshake.** Assume the externals behave as the real ones do for honest parties:
 the server's reply to this hello decodes to a payload signed for the key the client checks with,
-the payload carries the server's token, ECDH agrees, and the challenge encoding round-trips.
+the payload carries the server's token, ECDH agrees, the challenge encoding round-trips and the
+hello is padded to at least the size of the reply (the anti-amplification rule).
 Then after the client processes the server hello both ends hold the same session key and the same
 token, the client is CONNECTED, and the server — on receiving the client's challenge while its
 temp-pool entry carries that token — promotes the connection exactly once and is CONNECTED. -/
 theorem C02_honest_agree (H : Hs) (tok : Nat) (srv cli : Conn) (t : Int) (hello : Bytes)
     (root payload sig spub salt : Bytes)
     (hver : H.parseClientHello hello = .ok 1)
+    (hpad : (H.serverReply hello tok).2.length ≤ hello.length)
     (hparse : H.parseServerHello (H.serverReply hello tok).2 = .ok (root, payload, sig))
     (hsig : H.verify (checkKey cli root) sig payload = true)
     (hpay : H.parsePayload payload = .ok (spub, salt, tok))
@@ -265,7 +269,8 @@ theorem C02_honest_agree (H : Hs) (tok : Nat) (srv cli : Conn) (t : Int) (hello 
     (serverChallenge H (some srv'.token) srv' t (H.challengeBytes tok)).1.status = .connected := by
   have hs : (serverClientHello H tok srv t hello).1.key = some (H.serverReply hello tok).1 ∧
       (serverClientHello H tok srv t hello).1.token = tok := by
-    simp only [serverClientHello, hver, ne_eq, not_true_eq_false, if_false, sendType]
+    have hpad' : ¬ (H.serverReply hello tok).2.length > hello.length := by omega
+    simp only [serverClientHello, hver, ne_eq, not_true_eq_false, if_false, hpad', sendType]
     first | (split <;> exact ⟨rfl, rfl⟩) | exact ⟨trivial, trivial⟩ | simp
   have hc : (clientServerHello H cli t (H.serverReply hello tok).2).1 = adopt H cli spub salt tok := by
     simp [clientServerHello, hparse, hsig, hpay]
